@@ -532,10 +532,10 @@ class Ovld:
         Returns those that were built: _update() rebuilds them after the change.
         If we are interrupted in between, they are simply rebuilt on next use.
         """
-        built = []
-        if self._compiled:
-            self._unbuild()
-            built.append(self)
+        built = [self] if self._compiled else []
+        # Always: this also completes an _unbuild() that was interrupted after
+        # it cleared the flag, before it took the entry point out of service
+        self._unbuild()
         for child in self.children:
             built.extend(child._invalidate())
         return built
